@@ -55,11 +55,11 @@ OWN_OPS = {
 
 # attribution tables (oracle x kind of the step just executed -> property); engines built on
 # ObjSim extend them with their own step kinds
-TAG_OTHER = {"construct": "C03", "set": "C10", "bind": "C10", "copy": "C09", "misuse": "C11", "restart": "C20", "json_rebuild": "C03", "c_read": "C02", "c_set": "C07", "c_call": "C17"}
-TAG_OUT = {"construct": "C03", "set": "C03", "bind": "C03", "copy": "C03", "misuse": "C11", "restart": "C20", "json_rebuild": "C03", "c_read": "C02", "c_set": "C07", "c_call": "C17"}
-STEP_PROP = {"kill": "C09", "construct": "C01", "set": "C10", "bind": "C08", "copy": "C09", "misuse": "C11", "restart": "C20", "json_rebuild": "C19", "c_read": "C02", "c_set": "C07", "c_call": "C17"}
-INPLACE_KINDS = {"kill", "set", "bind", "misuse", "grow", "grow_until", "raw_alloc", "raw_free", "drop_handle", "c_read", "c_set", "c_call"}
-LAYOUT_PROP = {"kill": "C09", "set": "C10", "bind": "C08", "misuse": "C11", "c_read": "C02", "c_set": "C07", "c_call": "C17"}
+TAG_OTHER = {"construct": "C03", "set": "C10", "bind": "C10", "copy": "C09", "misuse": "C11", "restart": "C20", "json_rebuild": "C03", "c_read": "C02", "c_set": "C07", "c_call": "C17", "c_rebuild": "C17"}
+TAG_OUT = {"construct": "C03", "set": "C03", "bind": "C03", "copy": "C03", "misuse": "C11", "restart": "C20", "json_rebuild": "C03", "c_read": "C02", "c_set": "C07", "c_call": "C17", "c_rebuild": "C17"}
+STEP_PROP = {"kill": "C09", "construct": "C01", "set": "C10", "bind": "C08", "copy": "C09", "misuse": "C11", "restart": "C20", "json_rebuild": "C19", "c_read": "C02", "c_set": "C07", "c_call": "C17", "c_rebuild": "C17"}
+INPLACE_KINDS = {"kill", "set", "bind", "misuse", "grow", "grow_until", "raw_alloc", "raw_free", "drop_handle", "c_read", "c_set", "c_call", "c_rebuild"}
+LAYOUT_PROP = {"kill": "C09", "set": "C10", "bind": "C08", "misuse": "C11", "c_read": "C02", "c_set": "C07", "c_call": "C17", "c_rebuild": "C17"}
 
 
 def gen_world(rng, profile, tier, no_twins=False):
